@@ -181,6 +181,15 @@ def innermost(ev):
     return ev.stack[-1][0] if ev.stack else ev.fn
 
 
+def owner_fn(I, ev):
+    """the function an event belongs to when private helpers that are exclusive to one caller are read as parts of that
+    caller (extract-method refactoring): the innermost frame that is not such a helper"""
+    stk = ev.stack
+    while len(stk) > 1 and I.exclusive_helper(stk[-1][0], stk[-2][0]):
+        stk = stk[:-1]
+    return stk[-1][0]
+
+
 def short(fn):
     return fn.replace('Bump::<MIN_ALIGN>::', 'Bump::')
 
